@@ -7,7 +7,7 @@
    NAME says: name, marks, friendly name of the constraint, description), compared with HoverAtPos on every run. *)
 From Coq Require Import String List ZArith Bool.
 From HV Require Import Base.Sexp Base.Pos Model.Schema Model.Ast Model.Merge Model.Hover Model.Origins Model.ValueTokens Model.ValueHover
-                       Proofs.HoverProofs Proofs.ValueTokensProofs Proofs.ValueHoverProofs Model.TypeHover Proofs.TypeHoverProofs Model.Snippet Model.HoverData Proofs.HoverDataProofs Model.AttrDetail Proofs.AttrDetailProofs.
+                       Proofs.HoverProofs Proofs.ValueTokensProofs Proofs.ValueHoverProofs Model.TypeHover Proofs.TypeHoverProofs Model.Snippet Model.HoverData Proofs.HoverDataProofs Model.AttrDetail Proofs.AttrDetailProofs Model.Completion Proofs.HoverRanges.
 
 (* whenever hover data is returned for an attribute name, block type or label - at any nesting
    depth - its range contains the cursor *)
@@ -132,3 +132,20 @@ Theorem C12_tuple_description_lists_the_elements : forall f es lvl s,
   exists ds, s = ("tuple([" ++ Base.Str.join ", " ds ++ "])")%string /\ Forall2 (fun e d => ehd f e lvl = Some (Some d)) es ds.
 Proof. exact ehd_tuple_lists_elements. Qed.
 Print Assumptions C12_tuple_description_lists_the_elements.
+
+(* ---- which range a body-level hover carries ---- *)
+
+(* on an attribute name: the whole attribute as range (the name is under the cursor and known to the effective schema) *)
+Theorem C12_attribute_name_hover_has_the_whole_attribute_as_range : forall p bs attrs c r,
+  hover_attrs p attrs bs = Some (HHover c r) ->
+  exists a, In a attrs /\ r = a_rng a /\ contains_pos (a_name_rng a) p = true /\ contains_pos (a_rng a) p = true /\
+            hover_attr_schema bs (a_name a) <> None.
+Proof. exact attr_hover_range_is_the_attribute. Qed.
+Print Assumptions C12_attribute_name_hover_has_the_whole_attribute_as_range.
+
+(* on a label: that label as range, for a label the schema declares, with the content of that label *)
+Theorem C12_label_hover_has_the_label_as_range : forall p k sc rngs i c r,
+  hover_labels p k sc i rngs = Some (HHover c r) ->
+  exists j, nth_error rngs j = Some r /\ contains_pos r p = true /\ (i + j < length (bk_labels sc))%nat /\ c = hover_label (i + j) k sc.
+Proof. exact label_hover_range_is_the_label. Qed.
+Print Assumptions C12_label_hover_has_the_label_as_range.
